@@ -1,6 +1,6 @@
 SPECIFICATION TSpec
 CONSTANTS
-  Keys = {"k1", "k2", "k3", "k4"}
+  Keys = {"k1", "k2", "k3", "k4", "f1", "f2", "f3", "f4", "f5", "f6", "f7"}
   Vals = {1, 2}
   RawCaps = {1}
 CONSTRAINT HW
